@@ -11,7 +11,7 @@ git -C /repo worktree add --detach "$WT" HEAD >/dev/null 2>&1 || { echo "worktre
 if ! git -C "$WT" apply "$PATCH"; then echo "PATCH DOES NOT APPLY"; git -C /repo worktree remove --force "$WT"; rm -rf "$SCR"; exit 2; fi
 rc_all=0
 for id in "$@"; do
-  out=$(JAMVERIF_REPO="$WT" JAMVERIF_SCRATCH="$SCR" /verif/bin/jamverif check "$id" --tier "${TIER:-quick}" 2>&1); rc=$?
+  out=$(JAMVERIF_REPO="$WT" JAMVERIF_SCRATCH="$SCR" ${JV_BIN:-/verif/bin/jamverif} check "$id" --tier "${TIER:-quick}" 2>&1); rc=$?
   echo "== $id exit=$rc"
   echo "$out" | grep -E "violated:|UNDECIDED|ERROR|VIOLATION|KNOWN" | sed "s#$WT/##g" | head -${LINES_MAX:-12}
   [ $rc -ne 0 ] && rc_all=1
